@@ -51,18 +51,32 @@ Proof. exact brute_opt_min. Qed.
 Theorem C15_brute_solve_optimal : optimal_full brute_solve.
 Proof. exact brute_solve_contract. Qed.
 
+(* ---- every pair missing (formerly D14a, now fixed in /repo): the empty pairing, which satisfies the property *)
+Theorem C15_all_missing_empty : forall solve u W, all_missingb W = true -> mwbm solve u W = OK [].
+Proof. exact all_missing_empty. Qed.
+
+Theorem C15_all_missing_holds : forall solve u W, all_missingb W = true ->
+  valid W [] /\
+  prop_ok {| c_unit := u; c_table := W; c_solver := None; c_result := mwbm solve u W |} = true.
+Proof. exact all_missing_holds. Qed.
+
+(* the old failure (TypeError on the corpus table) is rejected by holds_C15 under the classes still open, and by
+   corr_C15; the empty pairing is accepted by both *)
+Theorem C15_all_missing_regression_detected :
+  let c := {| c_unit := 1; c_table := [[None; None]; [None; None]]; c_solver := None; c_result := Err TypeError |} in
+  holds_C15 [(kf_negative_with_missing, ex_kf_negative_with_missing); (kf_beyond_2p53, ex_kf_beyond_2p53);
+             (kf_sentinel_overflow, ex_kf_sentinel_overflow)] c = false /\
+  corr_C15 c = false /\
+  holds_C15 [] {| c_unit := 1; c_table := c_table c; c_solver := None; c_result := OK [] |} = true /\
+  corr_C15 {| c_unit := 1; c_table := c_table c; c_solver := None; c_result := OK [] |} = true.
+Proof. exact all_missing_regression_detected. Qed.
+
 (* ---- D14: every region excluded from in_domain fails, with a concrete table (the known-finding classes);
-   rectangular single-type tables outside the domain lie in one of the four classes *)
+   rectangular single-type tables outside the domain lie in one of the three classes *)
 Theorem C15_domain_or_known : forall u W, rectb W = true -> mixedb W = false ->
-  in_domainb u W = true \/ kf_all_missing u W = true \/ kf_negative_with_missing u W = true \/
+  in_domainb u W = true \/ kf_negative_with_missing u W = true \/
   kf_sentinel_overflow u W = true \/ kf_beyond_2p53 u W = true.
 Proof. exact in_domain_or_known. Qed.
-
-Theorem C15_all_missing_refuted :
-  let W := [[None; None]; [None; None]] in
-  rectb W = true /\ mixedb W = false /\ kf_all_missing 1 W = true /\
-  forall solve, mwbm solve 1 W = Err TypeError.
-Proof. exact C15_all_missing_refuted. Qed.
 
 Theorem C15_negative_with_missing_refuted :
   let W := [[Some (WI 3); None]; [Some (WI (-5)); None]] in
@@ -88,11 +102,7 @@ Theorem C15_beyond_2p53_refuted :
   exists m m', mwbm solve_rounded 1 W = OK m /\ valid W m' /\ length m' = length m /\ total m' < total m.
 Proof. exact C15_beyond_2p53_refuted. Qed.
 
-(* the model's outcome on every table of the first two classes *)
-Theorem C15_all_missing_outcome : forall solve u W, rectb W = true -> mixedb W = false ->
-  kf_all_missing u W = true -> mwbm solve u W = Err TypeError.
-Proof. exact kf_all_missing_outcome. Qed.
-
+(* the model's outcome on every table of the first class *)
 Theorem C15_negative_outcome : forall solve u W, rectb W = true -> mixedb W = false ->
   kf_negative_with_missing u W = true -> mwbm solve u W = Err AssertionError.
 Proof. exact kf_negative_outcome. Qed.
@@ -105,11 +115,12 @@ Print Assumptions C15_holds.
 Print Assumptions C15_get_dtype_fits.
 Print Assumptions C15_brute_opt_min.
 Print Assumptions C15_brute_solve_optimal.
+Print Assumptions C15_all_missing_empty.
+Print Assumptions C15_all_missing_holds.
+Print Assumptions C15_all_missing_regression_detected.
 Print Assumptions C15_domain_or_known.
-Print Assumptions C15_all_missing_refuted.
 Print Assumptions C15_negative_with_missing_refuted.
 Print Assumptions C15_negative_needs_negative.
 Print Assumptions C15_sentinel_overflow_refuted.
 Print Assumptions C15_beyond_2p53_refuted.
-Print Assumptions C15_all_missing_outcome.
 Print Assumptions C15_negative_outcome.
